@@ -127,6 +127,27 @@ def run_c10(pid, spec, res, st, tier, seed, helpers):
                 fails.append((c, {'kind': 'variant', 'detail': 'variant %r returned %r instead of %r' % (
                     b.get('variant'), ''.join(map(chr, b.get('out', []))) if 'out' in b else b.get('panic'), ''.join(map(chr, b.get('want', []))))}))
                 break
+    # "a function of the test-case set and the settings": no state may survive from one build to the next inside a
+    # process. Every case is built with all its options and with only its first option, in two processes that visit
+    # the builds in opposite orders; each configuration must print the same string in both (seed C10e: a process-wide
+    # cache keyed by the character alone)
+    hist = []
+    for c in allc:
+        fl = [f for f in c['f'].split(',') if f]
+        if len(fl) >= 2 and len(hist) < (600 if tier == 'quick' else 6000):
+            hist.append(c)
+    if hist:
+        fulls = [dict(c, id=2 * i) for i, c in enumerate(hist)]
+        parts = [dict(c, id=2 * i + 1, f=[f for f in c['f'].split(',') if f][0]) for i, c in enumerate(hist)]
+        ra = runner.run_impl(parts + fulls, threads=1)
+        rb = runner.run_impl(fulls + parts, threads=1)
+        for q in fulls + parts:
+            a, b = ra.get(q['id'], {}), rb.get(q['id'], {})
+            if a.get('out') != b.get('out') and a.get('panic') is None and b.get('panic') is None:
+                fails.append((q, {'kind': 'history', 'detail': 'options %r: built before the other configurations of the batch %r, built after them %r (state survives between builds in one process)' % (
+                    q['f'], ''.join(map(chr, a.get('out') or []))[:120], ''.join(map(chr, b.get('out') or []))[:120])}))
+                break
+        res['stats']['history_pairs'] = len(hist)
     validate_setter_translation(res)
     # correspondence on the stages the determinism theorems talk about
     helpers['correspondence'](pid, spec, res, st, allc)
@@ -218,6 +239,25 @@ def run_c12(pid, spec, res, st, tier, seed, helpers):
                         name, 'CRLF' if sep == '\r\n' else 'LF', final_nl, rc, out.decode('utf-8', 'replace')[:200], want.decode()[:200], err.decode('utf-8', 'replace')[:200]),
                         'args': args if name != 'args' else None}))
                     break
+        # a lone "-" means standard input; "-" among several arguments is a test case like any other, whatever
+        # standard input holds (seed C12e)
+        dash_sets = [["-", "a", "b"], ["-", "-"], ["a", "-"], ["-", ""], ["-", "x", "-"]]
+        dcs = [{'id': k, 'tcs': [[ord(ch) for ch in w] for w in ws_], 'f': '', 'mr': 1, 'ms': 1} for k, ws_ in enumerate(dash_sets)]
+        dimpl = runner.run_impl(dcs)
+        for dc, ws_ in zip(dcs, dash_sets):
+            r = dimpl.get(dc['id'])
+            if r is None or r.get('out') is None:
+                continue
+            want = (''.join(map(chr, r['out'])) + '\n').encode('utf-8')
+            for inp in (b'x\ny\n', b''):
+                rc, out, err = run_cli(list(ws_), inp); runs += 1
+                if rc != 0 or out != want:
+                    fails.append((dc, {'kind': 'cli-args-dash', 'detail': 'arguments %r with standard input %r: exit %d, stdout %r, expected %r, stderr %r' % (
+                        ws_, inp, rc, out.decode('utf-8', 'replace')[:200], want.decode()[:200], err.decode('utf-8', 'replace')[:200]), 'args': list(ws_)}))
+                    break
+        # files that start with U+FEFF: the byte-order mark is not stripped by str::lines, nor by from() (seed C12f)
+        for k, content in enumerate(['\ufeffabc\nxyz\n', '\ufeff', 'a\n\ufeffb\n', '\ufeff\r\nq']):
+            open(os.path.join(tmpd, 'in_!bom%d.txt' % k), 'wb').write(content.encode('utf-8'))
         # error inputs: non-zero exit, one-line message, never a panic
         errs = []
         empty = os.path.join(tmpd, 'empty.txt'); open(empty, 'wb').close()
